@@ -169,6 +169,11 @@ PROPS['C11']['thorough'] = list(dict.fromkeys(PROPS['C11']['thorough'] + _LIGHT)
 PROPS['C18']['quick'] = list(dict.fromkeys(PROPS['C18']['quick'] + _MID))
 PROPS['C09']['quick'] = list(dict.fromkeys(PROPS['C09']['quick']))
 
+# C01: the DEEP evaluators bind every out-of-domain value to its own coefficient (typing contract of the autogen units)
+_AUTOGEN = ['autogen_recursive', 'autogen_dex', 'autogen_small', 'autogen_recursive_with_poseidon', 'autogen_starknet']
+PROPS['C01']['quick'] = list(dict.fromkeys(PROPS['C01']['quick'] + _AUTOGEN))
+PROPS['C01']['thorough'] = list(dict.fromkeys(PROPS['C01']['thorough'] + _AUTOGEN + ['autogen_starknet_with_keccak']))
+
 # thorough tier: every hash / stone variant of the core unit for the properties whose code is cfg-dependent
 for _p in ('C01', 'C02', 'C04', 'C05', 'C07', 'C09', 'C13', 'C17', 'C18'):
     PROPS[_p]['thorough'] = list(dict.fromkeys(PROPS[_p]['thorough'] + VARIANTS))
